@@ -814,6 +814,34 @@ def oracle(ctx, scale):
                         ctx.violation(f"{tag}:mpe-inaccurate", f"{tag}: extracted mode {j}: f {r2.Fn[j]} vs {S.fn[i]}, xi {r2.Xi[j]} vs {S.xi[i]}, MAC {mc}", cinp)
                         return
                 ctx.count(f"class_runs_{alg.name}")
+                if rng.random() < 0.5:
+                    # the run parameters REPLACED through the public set_run_params by a set that leaves ref_ind and hc out (all
+                    # channels as references, default criteria): the next run is the run of exactly these parameters, i.e. what a
+                    # fresh object built with them gives on the same data
+                    from pyoma2.algorithms.data.run_params import SSIRunParams
+                    br2 = br + rng.randint(0, 1)
+                    kw2 = dict(br=br2, ordmax=min(m2, br2 * Y.shape[1]), method=("cov_mm" if alg.name == "cov" else "dat"))
+                    try:
+                        alg.set_run_params(SSIRunParams(**kw2))
+                        ss.run_by_name(alg.name)
+                        fresh = type(alg)(name="fresh", **kw2)
+                        ss2 = SingleSetup(Y.copy(), fs=S.fs)
+                        ss2.add_algorithms(fresh)
+                        ss2.run_by_name("fresh")
+                    except np.linalg.LinAlgError:
+                        ctx.skipped += 1
+                        continue
+                    ctx.oracle_cases += 1
+                    ctx.count("class_rerun_after_set_run_params")
+                    ra, rb = alg.result, fresh.result
+                    same = (np.asarray(ra.H).shape == np.asarray(rb.H).shape and np.allclose(ra.H, rb.H, rtol=1e-10, atol=0)
+                            and np.array_equal(np.isnan(ra.Fn_poles), np.isnan(rb.Fn_poles))
+                            and np.allclose(np.nan_to_num(ra.Fn_poles), np.nan_to_num(rb.Fn_poles), rtol=1e-7, atol=0)
+                            and np.array_equal(ra.Lab, rb.Lab))
+                    if not same:
+                        ctx.violation(f"{tag}:set_run_params-not-replaced", f"{tag}: after set_run_params({kw2}) the run differs from the run of a fresh "
+                                      f"object built with the same parameters (Hankel shape {np.asarray(ra.H).shape} vs {np.asarray(rb.H).shape})", cinp | {"new_params": kw2})
+                        return
 
 
 def replay(rec):
